@@ -100,6 +100,23 @@ fn int_cell(value: &Value, table_name: &str) -> io::Result<i32> {
     }
 }
 
+/// Checks that every value in the rows is valid for its catalog table column.
+fn check_catalog_rows(table: &Table, rows: &[Vec<Value>]) -> io::Result<()> {
+    for values in rows.iter() {
+        for (column, value) in table.columns().iter().zip(values.iter()) {
+            if !column.is_valid_value(value) {
+                invalid_input!(
+                    "{} cannot be stored in column {:?} of table {:?}",
+                    value,
+                    column.name(),
+                    table.name()
+                );
+            }
+        }
+    }
+    Ok(())
+}
+
 fn is_reserved_table_name(table_name: &str) -> bool {
     table_name == COLUMNS_TABLE_NAME
         || table_name == TABLES_TABLE_NAME
@@ -632,26 +649,19 @@ impl<F: Read + Write + Seek> Package<F> {
                 );
             }
         }
-        self.insert_rows(
-            Insert::into(COLUMNS_TABLE_NAME).rows(
-                columns
-                    .iter()
-                    .enumerate()
-                    .map(|(index, column)| {
-                        vec![
-                            Value::Str(table_name.clone()),
-                            Value::Int(1 + index as i32),
-                            Value::Str(column.name().to_string()),
-                            Value::Int(column.bitfield()),
-                        ]
-                    })
-                    .collect(),
-            ),
-        )?;
-        self.insert_rows(
-            Insert::into(TABLES_TABLE_NAME)
-                .row(vec![Value::Str(table_name.clone())]),
-        )?;
+        let columns_rows: Vec<Vec<Value>> = columns
+            .iter()
+            .enumerate()
+            .map(|(index, column)| {
+                vec![
+                    Value::Str(table_name.clone()),
+                    Value::Int(1 + index as i32),
+                    Value::Str(column.name().to_string()),
+                    Value::Int(column.bitfield()),
+                ]
+            })
+            .collect();
+        let tables_rows = vec![vec![Value::Str(table_name.clone())]];
         let validation_rows: Vec<Vec<Value>> = columns
             .iter()
             .map(|column| {
@@ -693,6 +703,13 @@ impl<F: Read + Write + Seek> Package<F> {
                 ]
             })
             .collect();
+        // Make sure that the catalog tables can hold all of this before
+        // changing anything, so that a failure leaves nothing half-created.
+        check_catalog_rows(&make_columns_table(false), &columns_rows)?;
+        check_catalog_rows(&make_tables_table(false), &tables_rows)?;
+        check_catalog_rows(&make_validation_table(false), &validation_rows)?;
+        self.insert_rows(Insert::into(COLUMNS_TABLE_NAME).rows(columns_rows))?;
+        self.insert_rows(Insert::into(TABLES_TABLE_NAME).rows(tables_rows))?;
         let long_string_refs = self.string_pool.long_string_refs();
         let table = Table::new(table_name.clone(), columns, long_string_refs);
         self.tables.insert(table_name, table);
